@@ -8,6 +8,7 @@ spec/PiMonitor.tla (the IR reference semantics spec/IR.tla + the recorded result
 (program, initial state); in every state at a block start every register must be a member of the
 concretisation of its abstract value (Sound), and completing a block's defs requires the analysis to
 have a BlkEnd state (NullDerefHalts).  Python only shards, counts and maps TLC's verdicts to exit codes."""
+import concurrent.futures as cf
 import json
 import os
 import re
@@ -161,7 +162,17 @@ def _counterexample(ev, init, tag):
     with open(path, "w") as f:
         f.write(json.dumps(e) + "\n")
     r = core.tlc(TRACE_SPEC, cfg=CEX_CFG, trace=path, workers=1, timeout=900)
-    return r.cex() if r.invariant else r.out[-3000:]
+    if not r.invariant:
+        return r.out[-3000:]
+    i = r.out.find("Error: Invariant")
+    return _clean_cex(r.out[i:])[:24000]
+
+
+def _clean_cex(text):
+    """TLC prints every action with its (huge) parameter, the sequence of cases: drop it; keep the states."""
+    text = re.sub(r"<Next\(.*?\)( line \d+, col \d+)", r"<Next\1", text, flags=re.S)
+    text = re.sub(r"\n/\\ rho = \(.*?\)\n(?=/\\ )", "\n", text, flags=re.S)      # constant along the behaviour: shown by state 1 only
+    return text
 
 
 def _violation_event(case, bad):
@@ -170,23 +181,75 @@ def _violation_event(case, bad):
     ev = dict(case)
     ev.update({"viol": kind, "viol_block": case["blocks"][blk - 1]["tid"], "viol_reg": reg, "viol_init": init, "viol_steps": steps,
                "viol_block_after_sameid_cmp": bool(case["sameid_succ"][blk - 1]),
+               "viol_block_after_negstride_cmp": bool(case["negstride_succ"][blk - 1]),
+               "viol_block_after_wide_subpiece_test": bool(case["widesub_succ"][blk - 1]),
                "viol_kinds": sorted(set(b[1] for b in bad))})
     return ev
+
+
+def _canary(rep, src_file, mutate, n, tag, exclude=()):
+    """Binding demonstration (as core.canary, with its own scratch file so that two can run concurrently): corrupt ONE recorded
+    output of one of the first n cases; TLC must report that case.  Returns the 1-based case index that was corrupted."""
+    evs = [json.loads(x) for x in core.read_lines(src_file)[:n]]
+    idx = mutate(evs, exclude)
+    if idx is None:
+        raise ToolError("canary %s: no case suitable for corruption in the first %d cases of %s" % (tag, n, src_file))
+    path = os.path.join(core.BUILD, "traces", "canary_C13_%s.ndjson" % tag)
+    with open(path, "w") as f:
+        for e in evs:
+            f.write(json.dumps(e) + "\n")
+    r = core.tlc(TRACE_SPEC, cfg=TRACE_CFG, trace=path, workers=1, timeout=900)
+    if r.error:
+        raise ToolError("canary %s: TLC error:\n%s" % (tag, r.error))
+    return idx + 1, _bad_by_case(r), r
+
+
+def shrink_sp(evs, exclude):
+    """the entry state's abstract stack pointer (stack id + 0) is shrunk to the absolute singleton {0}: the concrete entry SP (!= 0) escapes"""
+    for i, e in enumerate(evs):
+        if (i + 1) in exclude or not e["abs"][0]["has"]:
+            continue
+        spi = [r["n"] for r in e["physregs"]].index(e["sp"]["n"])
+        zero = [0] * e["sp"]["s"]
+        e["abs"][0]["regs"][spi] = {"w": e["sp"]["s"], "rel": [], "top": False,
+                                    "abs": [{"w": e["sp"]["s"], "s": zero, "e": zero, "st": [0] * 8, "lo": [], "hi": [], "d": [0] * 8}]}
+        return i
+    return None
+
+
+def drop_end(evs, exclude):
+    """the BlkEnd state of an entry block without any memory access is removed: the defs of that block certainly complete"""
+    for i, e in enumerate(evs):
+        if (i + 1) in exclude or not e["endstate"][0] or any(d["k"] != "assign" for d in e["blocks"][0]["defs"]):
+            continue
+        e["endstate"][0] = False
+        return i
+    return None
+
+
+CANARIES = [("sp", shrink_sp, "escape", 16), ("end", drop_end, "nullderef", 24)]
 
 
 def check(seed, tier):
     rep = Report("C13", seed, tier)
     core.build_harness()
-    _self_checks(rep, tier)
     shards = 2 if tier == "quick" else 8
     meta = core.gen("C13", seed, tier, shards=shards)
-    jobs = [dict(module=TRACE_SPEC, cfg=TRACE_CFG, trace=f, workers=4 if tier == "quick" else 2, timeout=6000, xmx="4g") for f in meta["files"]]
-    results = core.tlc_many(jobs, parallel=2 if tier == "quick" else 4)
+    jobs = [dict(module=TRACE_SPEC, cfg=TRACE_CFG, trace=f, workers=3 if tier == "quick" else 2, timeout=6000, xmx="4g") for f in meta["files"]]
+    # everything TLC has to do runs side by side: the monitor's self-check (M), the shards (T) and the two canaries
+    with cf.ThreadPoolExecutor(max_workers=4 if tier == "quick" else 5) as ex:
+        f_mc = ex.submit(_self_checks, rep, tier)
+        f_can = [ex.submit(_canary, rep, meta["files"][0], mut, n, tag) for tag, mut, _, n in CANARIES]
+        f_shards = [ex.submit(core.tlc, **j) for j in jobs]
+        f_mc.result()
+        results = [f.result() for f in f_shards]
+        canaries = [f.result() for f in f_can]
     behaviours = 0
     violating = 0
-    cex_budget = {"known": 2, "new": 3}
+    cex_budget = {"known": 3, "new": 3}
     seen_known = set()
     first_case = None
+    bad_first_shard = {}
     for f, r in zip(meta["files"], results):
         rep.add_tlc(r)
         if r.error:
@@ -198,7 +261,8 @@ def check(seed, tier):
         bad = _bad_by_case(r)
         lines = core.read_lines(f)
         if first_case is None and lines:
-            first_case = json.loads(lines[0])
+            first_case = json.loads(lines[min(len(lines), 9) - 1])       # (the first few cases are the hand-written programs)
+            bad_first_shard = bad
         for idx in sorted(bad):
             case = json.loads(lines[idx - 1])
             ev = _violation_event(case, bad[idx])
@@ -223,46 +287,33 @@ def check(seed, tier):
                 cex = _counterexample(ev, ev["viol_init"], "n%d" % cex_budget["new"])
             rep.violation(what, [ev], 0, cex, extra={"violating_inits": bad[idx], "program": render(case)})
 
-    # canaries: corrupt the recorded OUTPUT of an accepted case so that it is certainly a violation
-    bad0 = _bad_by_case(results[0])
-
-    def shrink_sp(evs):
-        # the entry state's abstract stack pointer (stack id + 0) shrunk to the absolute singleton {0}: the concrete entry SP (!= 0) escapes
-        for i, e in enumerate(evs):
-            if (i + 1) in bad0 or not e["abs"][0]["has"]:
-                continue
-            spi = [r["n"] for r in e["physregs"]].index(e["sp"]["n"])
-            zero = [0] * e["sp"]["s"]
-            e["abs"][0]["regs"][spi] = {"w": e["sp"]["s"], "rel": [], "top": False,
-                                        "abs": [{"w": e["sp"]["s"], "s": zero, "e": zero, "st": [0] * 8, "lo": [], "hi": [], "d": [0] * 8}]}
-            return i
-        return None
-
-    def drop_end(evs):
-        # the BlkEnd state of an entry block without any memory access is removed: its defs certainly complete
-        for i, e in enumerate(evs):
-            if (i + 1) in bad0 or not e["endstate"][0] or any(d["k"] != "assign" for d in e["blocks"][0]["defs"]):
-                continue
-            e["endstate"][0] = False
-            return i
-        return None
-    core.canary(rep, TRACE_SPEC, meta["files"][0], shrink_sp, n=4, cfg=TRACE_CFG)
-    core.canary(rep, TRACE_SPEC, meta["files"][0], drop_end, n=12, cfg=TRACE_CFG)
+    # canaries: the corrupted case (accepted in the real run) must be reported with the expected kind
+    for (tag, mut, kind, n), (idx, cbad, r) in zip(CANARIES, canaries):
+        if idx in bad_first_shard:       # the case picked for corruption was itself a violation: pick another accepted one
+            idx, cbad, r = _canary(rep, meta["files"][0], mut, n, tag, exclude=set(bad_first_shard))
+        rep.add_tlc(r)
+        if kind not in [k for _, k, _, _, _ in cbad.get(idx, [])]:
+            raise ToolError("canary %s: corrupted case %d was ACCEPTED by %s (reported: %s) - the specification is vacuous for this invariant"
+                            % (tag, idx, TRACE_SPEC, cbad.get(idx)))
+        rep.notes.append("canary '%s': %s - case %d of an accepted shard was then rejected by TLC with kind '%s'" % (tag, mut.__doc__, idx, kind))
 
     rep.traces, rep.events = meta["cases"], behaviours
     x = meta["extra"]
     return rep.finish("model_checking", {
         "programs": meta["cases"], "behaviours_explored": behaviours, "violating_behaviours": violating,
-        "programs_generated": x.get("programs_generated"), "skipped_not_stabilized": x.get("skipped_not_stabilized"),
-        "pi_panics": x.get("pi_panics"), "blocks_total": x.get("blocks_total"), "blocks_without_state": x.get("blocks_without_state"),
+        "programs_generated": x.get("programs_generated"), "programs_directed": x.get("programs_directed"),
+        "skipped_not_stabilized": x.get("skipped_not_stabilized"),
+        "pi_panics": x.get("pi_panics"), "pi_panic_samples": x.get("pi_panic_samples"),
+        "blocks_total": x.get("blocks_total"), "blocks_without_state": x.get("blocks_without_state"),
+        "blocks_with_state_dropped_at_a_def": x.get("blocks_state_dropped"),
         "distinct_nontrivial": meta["distinct_nontrivial"],
-        "rule": "one case = one generated single-function program together with the result of the real compute_function_signatures + "
-                "pointer_inference::run on it; programs whose pointer-inference log contains 'Fixpoint did not stabilize' are skipped "
-                "(counted in skipped_not_stabilized; the property's precondition), a panic of the analysis is counted in pi_panics and "
-                "skipped (C21's subject); non-trivial = besides the stack pointer at least one register at some block start has an abstract "
-                "value WITHOUT the Top flag (the analysis makes a claim that can be wrong); distinct = distinct hashes of the case; "
-                "evaluations = (program, initial state) behaviours TLC explored to their end (return, NULL-window halt, repeated state, or "
-                "the fuel of 48 blocks); states = concrete machine states at BlkStart/BlkEnd nodes, each judged against the recorded abstraction",
+        "rule": "one case = one single-function program (a few hand-written ones first, then generated ones) together with the result of the real "
+                "compute_function_signatures + pointer_inference::run on it; programs whose pointer-inference log contains 'Fixpoint did not "
+                "stabilize' are skipped (counted in skipped_not_stabilized; the property's precondition), a panic of the analysis is counted in "
+                "pi_panics and skipped (C21's subject); non-trivial = besides the stack pointer at least one register at some block start has an "
+                "abstract value WITHOUT the Top flag (the analysis makes a claim that can be wrong); distinct = distinct hashes of the case; "
+                "evaluations = (program, initial state) behaviours TLC explored to their end (return, NULL-window halt, repeated state, or the "
+                "fuel of 48 blocks); states = concrete machine states at BlkStart/BlkEnd nodes, each judged against the recorded abstraction",
         "samples": [_sample(first_case)] if first_case else meta["samples"][:1],
         "mc_runs": rep.cov.get("mc_runs"), "trusted_base": TRUSTED,
     }, ["input class (harness/src/pigen.rs): one function, no calls/indirect jumps; 8-byte registers, 1-byte flags holding 0/1; well-sized "
@@ -273,7 +324,8 @@ def check(seed, tier):
         "entry memory at SP+offset; every other identifier is unknown and excludes nothing; a register with the Top flag excludes nothing",
         "the concrete machine halts at a load/store whose address lies in (-1024, 1024) - the analysis' NULL window",
         "initial memory is an arbitrary but fixed function of the address (IR!InitMem); little endian",
-        "bounded: 12 initial register files per program (random, boundary, constants of the program +-1, equal registers), 48 blocks per behaviour"])
+        "bounded: 12 initial register files per program (random, boundary, constants of the program +-1, NULL-window edges, equal registers), "
+        "48 blocks per behaviour"])
 
 
 def replay(path, seed, tier):
